@@ -4,7 +4,7 @@ namespace BeyondVerif.Drv.C04
 open BeyondVerif BeyondVerif.Drv BeyondVerif.DateUse
 
 /-- `c04.delta ra oa rb ob` : readings (µs) and offsets-to-TAI (µs, `TAI − label`) of two dates; reply `b − a` in µs.
-    `c04.eopday r` : day number used for the EOP lookup of a date whose own-scale reading is r -/
+    `c04.eopday r o ou` : UTC day number used for the EOP lookup -/
 def handle : List String → Option String
   | ["c04.delta", ra, oa, rb, ob] => some <|
     match ra.toInt?, oa.toInt?, rb.toInt?, ob.toInt? with
@@ -13,10 +13,13 @@ def handle : List String → Option String
       let off : Nat → Int := fun l => if l = 0 then -oa else -ob
       toString (sub (ofReading off rb 1) (ofReading off ra 0))
     | _, _, _, _ => "bad-op"
-  | ["c04.eopday", r] => some <|
-    match r.toInt? with
-    | some r => toString (eopDay (fun _ => 0) ⟨r, 0⟩)
-    | none => "bad-op"
+  | ["c04.eopday", r, o, ou] => some <|
+    -- own-scale reading r (µs), TAI − label = o, TAI − UTC = ou  →  UTC day number used for the EOP lookup
+    match r.toInt?, o.toInt?, ou.toInt? with
+    | some r, some o, some ou =>
+      let off : Nat → Int := fun l => if l = 0 then -ou else -o
+      toString (eopDay off 0 (ofReading off r 1))
+    | _, _, _ => "bad-op"
   | _ => none
 
 end BeyondVerif.Drv.C04
